@@ -138,7 +138,7 @@ def case_truediv(acc, auth, segs):
     text = canon_dec(p)
     if auth:
         # a shallow base: arguments of <= 4 segments can climb above the root and still be followed by something
-        return run(acc, "truediv", (auth, segs), lambda: impl.URL("http://h.com/r") / p, lambda: rds_auth("/r/" + text), True)
+        return run(acc, "truediv", (auth, segs), lambda: impl.URL("http://h.com/a") / p, lambda: rds_auth("/a/" + text), True)
     return run(acc, "truediv", (auth, segs), lambda: impl.URL("r/s") / p, lambda: "r/s/" + text, False)
 
 
@@ -195,6 +195,25 @@ def task_seqs(entry, variant, maxlen, first):
     return acc.result()
 
 
+def task_mixed(maxlen, passes):
+    """One process, every entry point interleaved per segment sequence, the whole sweep repeated: whatever one entry point leaves
+    behind (a memo keyed by segments, a shared list) is in place when the other entry points handle the same segments."""
+    acc = Acc(ID, impl.backend)
+    kinds = ["..", ".", "", "a", "b", "%2E"]
+    states = set()
+    for _ in range(passes):
+        for n in range(0, maxlen + 1):
+            for segs in itertools.product(kinds, repeat=n):
+                for entry, variant in ENTRY:
+                    r = CASES[entry](acc, variant, segs)
+                    if r is not None:
+                        states.add(r)
+    acc.state_count = len(states)
+    acc.nontrivial = acc.evals
+    acc.sample({"mixed_history": "all entry points per segment sequence, %d passes in one process" % passes, "kinds": kinds, "max_segments": maxlen}, 1)
+    return acc.result()
+
+
 def plan(ctx):
     k = 4 if ctx.tier == "quick" else 5
     tasks = []
@@ -202,6 +221,8 @@ def plan(ctx):
         for entry, variant in ENTRY:
             for first in range(-1, len(SEG)):
                 tasks.append(("checks.C15", "task_seqs", (entry, variant, k, first), b, "s"))
+    for b in BACKENDS:
+        tasks.append(("checks.C15", "task_mixed", (4 if ctx.tier == "quick" else 5, 2), b, "m"))
     ctx.notes["bounds"] = {"segment_alphabet": SEG, "max_segments": k, "entry_points": [list(e) for e in ENTRY]}
     return tasks
 
